@@ -74,7 +74,7 @@ USER = {c.__name__: c for c in (UserErr, UserValueErr, UserKeyErr, UserKwOnly, U
 
 BASE_ONLY = ('KeyboardInterrupt', 'SystemExit', 'GeneratorExit', 'UserBase')
 GLOM_USER = ('UGlomErr', 'UGlomErrInit', 'UGlomKwOnly', 'UGlomArity', 'UGlomMixed', 'UGlomRewrite',
-             'UGlomLookup')
+             'UGlomLookup', 'UGlomMultiline')
 NOT_REBUILDABLE = ('UserKwOnly', 'UserArity', 'UGlomKwOnly', 'UGlomArity')
 
 ALL = tuple(BUILTIN) + tuple(USER) + GLOM_USER
@@ -124,12 +124,17 @@ def bind(G):
             super().__init__(self.TABLE[code.split(':')[0] if isinstance(code, str) and code.startswith('E1') else code])
             self.code = code
 
+    class UGlomMultiline(GE):
+        """a message of two lines: the second one must not get lost in a trace"""
+        def __init__(self, msg):
+            super().__init__(msg if '\n' in str(msg) else f'{msg}\n>>second line of {msg}')
+
     class UGlomRewrite(GE):
         def __init__(self, a):
             super().__init__(a + a)
 
     d = {c.__name__: c for c in (UGlomErr, UGlomErrInit, UGlomKwOnly, UGlomArity, UGlomMixed,
-                                UGlomRewrite, UGlomLookup)}
+                                UGlomRewrite, UGlomLookup, UGlomMultiline)}
     for c in d.values():
         c.__qualname__ = c.__name__
     if len(_BOUND) > 64:
